@@ -12,6 +12,16 @@ ENG = {
 
 # id: (engine, category, technique, level text, level note, design ref)
 CHECKS = {
+ "C12": ("E3", "model_checking",
+   "complete configuration matrix (38 016 cells: verifier construction x plugin manager x revocation option x level placement x entry point x signature kind x plugin demand x reference) plus exhaustive Hamming-1 byte neighbourhood, every truncation and one-node JSON structural neighbourhood (7 replacement values + numeric extremes) of valid envelopes, policy/config/signing-key/CRL-cache files, hostile OCI layouts and plugin output, each executed in a worker subprocess under RLIMIT_AS with recover() and an allocation meter",
+   "Every configuration cell and every distance-1 mutant of every valid input kind is fed to the real exported entry points; no panic may escape, the worker must survive, the allocation ceiling must hold and (outcome, error) pairs of the Verifier/BlobVerifier entry points must be consistent. This is the model-checking reading of 'arbitrary input': the complete distance-1 neighbourhood, not a sample.",
+   "Trusted: the mutation enumerators in harness/c12. Inputs at distance >= 2, CBOR-structural mutations and timestamped envelopes are outside the bound. Six known-finding keys (F-12d, oras-go allocation) are listed in KNOWN_FINDINGS.txt.",
+   "DESIGN.md section 5 C12"),
+ "C18": ("E3", "model_checking",
+   "exhaustive enumeration of adversarial answers of a scripted in-process plugin.SignPlugin holding a real key (75 envelope-generator and 37 signature-generator answers x key spec x format x descriptor x 3 entry points), each a real PluginSigner.Sign/SignBlob call; implication oracle with independent strict re-verification of whatever is returned",
+   "Every adversarial answer (correctly signed wrong payloads, altered/dropped annotations, extra members, alternative key spellings, wrong format/echo, corrupted signatures, wrong key ids / key specs / chains) is returned to the real PluginSigner; it must never panic, and whenever it returns a signature, lib/refsig must verify it, the strictly decoded payload must equal the request and the plugin must have answered for the requested key.",
+   "Trusted: lib/refsig, the strict payload decoder and the plugin's own echo log in harness/c18. Duplicate JSON members (good last) are recorded, not judged.",
+   "DESIGN.md section 5 C18"),
  "C11": ("E2", "model_checking",
    "explicit-state search over histories of signing calls (40 operations = 5 references x 4 metadata maps x 2 formats; all sequences to depth 2 on three repositories + depth 3 on the mock in quick, depth 3 everywhere in thorough) on a same-object mock repository, the on-disk OCI layout (re-opened) and the memory store, with before/after snapshots; reference model of success + payload/subject/annotation oracle with independent re-verification",
    "Every history is replayed on a fresh repository through the real notation.SignOCI with real GenericSigners (and a recording signer); after every call the referrers, the envelope payload (lib/refsig), the descriptor handed to the signer, the manifest subject and annotations (thumbprints recomputed, signing time), and the unchanged-ness of the resolved descriptor, index.json entry, handed-out objects and caller maps are compared with the reference model, which is independent of what was signed before.",
